@@ -10,6 +10,59 @@ mod event_consumer;
 
 pub use event_consumer::parse_events;
 
+/// Verification hook: per-event snapshots of the analysis state.
+///
+/// A thread local sink. When installed, `parse_events` pushes one snapshot
+/// after each event has been processed.
+#[cfg(cooklang_verif)]
+pub mod verif {
+    use std::cell::RefCell;
+
+    #[derive(Debug, Clone)]
+    pub struct Snapshot {
+        pub event: &'static str,
+        pub define_mode: &'static str,
+        pub duplicate_mode: &'static str,
+        pub step_counter: u32,
+        pub old_style_metadata: bool,
+        pub in_block: bool,
+        pub ingredients: usize,
+        pub cookware: usize,
+        pub timers: usize,
+        pub inline_quantities: usize,
+        pub sections: usize,
+        pub current_content: usize,
+        pub current_steps: usize,
+        pub diagnostics: usize,
+    }
+
+    thread_local! {
+        static SINK: RefCell<Option<Vec<Snapshot>>> = const { RefCell::new(None) };
+    }
+
+    /// Start recording in this thread
+    pub fn install() {
+        SINK.with(|s| *s.borrow_mut() = Some(Vec::new()));
+    }
+
+    /// Stop recording and get the snapshots
+    pub fn take() -> Vec<Snapshot> {
+        SINK.with(|s| s.borrow_mut().take().unwrap_or_default())
+    }
+
+    pub(crate) fn enabled() -> bool {
+        SINK.with(|s| s.borrow().is_some())
+    }
+
+    pub(crate) fn push(snapshot: Snapshot) {
+        SINK.with(|s| {
+            if let Some(v) = s.borrow_mut().as_mut() {
+                v.push(snapshot);
+            }
+        });
+    }
+}
+
 pub type AnalysisResult = PassResult<ScalableRecipe>;
 
 #[derive(PartialEq, Eq, Debug, Clone, Copy)]
